@@ -723,7 +723,8 @@ class DetExecutor:
         if self._shutdown:
             raise RuntimeError('cannot schedule new futures after shutdown')
         f = DetFuture(s)
-        item = {'submit': s.step, 'start': None, 'end': None, 'tid': None}
+        item = {'submit': s.step, 'start': None, 'end': None, 'tid': None,
+                'transfer': getattr(fn, 'transfer_id', None)}
         self.items.append(item)
         self._q.append((f, fn, args, kwargs, item))
         self.submitted += 1
